@@ -160,6 +160,10 @@ type Track struct {
 	ExposureEpoch int
 	EpochBreak    bool
 
+	// last user disturbance kind (release / rollback / scale / plan-edit / jump / delete / disable / pause)
+	LastDisturbance string
+	Released        bool // the first template change (the release itself) happened
+
 	// C10
 	CancelArmed      bool // rollback / supersession written while canary traffic was non-zero
 	CancelHadTraffic bool
@@ -358,10 +362,29 @@ func (m *stdMonitor) checkNoVoid(w *World, wr *Write) {
 				}
 			}
 			if n == 0 && m.workloadReplicas(w) > 0 {
-				w.Violate("C04", "c04-stable-service-pinned-to-revision-without-pods", "after %s: stable Service is pinned to revision %s (canary weight %d%%) but no pod of that revision exists", wr, rev, rt.Weight)
+				w.Violate("C04", "c04-stable-service-pinned-to-revision-without-pods"+m.context(w), "after %s: stable Service is pinned to revision %s (canary weight %d%%) but no pod of that revision exists", wr, rev, rt.Weight)
 			}
 		}
 	}
+}
+
+// context names the situation a violation arose in (rollout phase / progressing reason and the
+// last kind of user disturbance), so that different violations of one invariant get different
+// signatures and a listed finding does not mask another one.
+func (m *stdMonitor) context(w *World) string {
+	s := m.t.S
+	ctx := "-rollout-gone"
+	if ro := w.Rollout(s.Namespace, s.Name); ro != nil {
+		ctx = "-during-" + strings.ToLower(string(ro.Status.Phase))
+		if ro.Status.Phase == v1beta1.RolloutPhaseProgressing {
+			ctx += "-" + strings.ToLower(progressingReason(ro))
+		}
+	}
+	last := "none"
+	if m.t.LastDisturbance != "" {
+		last = m.t.LastDisturbance
+	}
+	return ctx + "-after-" + last
 }
 
 func (m *stdMonitor) workloadReplicas(w *World) int {
@@ -488,6 +511,7 @@ func (m *stdMonitor) onRollout(w *World, wr *Write) {
 	if wr.Actor == ActorUser && before != nil {
 		if !before.Spec.Strategy.Paused && after.Spec.Strategy.Paused {
 			t.PausedSince = wr.Seq
+			t.LastDisturbance = "pause"
 		}
 		if before.Spec.Strategy.Paused && !after.Spec.Strategy.Paused {
 			t.PausedSince = 0
@@ -500,6 +524,7 @@ func (m *stdMonitor) onRollout(w *World, wr *Write) {
 			if bs.NextStepIndex != as.NextStepIndex {
 				t.OutstandingReq = true
 				t.EpochBreak = true
+				t.LastDisturbance = "jump"
 			}
 		}
 		if !reflect.DeepEqual(before.Spec.Strategy, after.Spec.Strategy) {
@@ -507,11 +532,16 @@ func (m *stdMonitor) onRollout(w *World, wr *Write) {
 			if !reflect.DeepEqual(stepsOf(before), stepsOf(after)) {
 				t.OutstandingReq = true
 				t.EpochBreak = true
+				t.LastDisturbance = "plan-edit"
 			}
 		}
 		if before.Spec.Disabled != after.Spec.Disabled || (before.DeletionTimestamp == nil && after.DeletionTimestamp != nil) {
 			t.OutstandingReq = true
 			t.EpochBreak = true
+			t.LastDisturbance = "disable"
+			if after.DeletionTimestamp != nil {
+				t.LastDisturbance = "delete"
+			}
 		}
 		return
 	}
@@ -807,6 +837,16 @@ func (m *stdMonitor) onWorkload(w *World, wr *Write) {
 	}
 	if wr.Actor == ActorUser {
 		t.EpochBreak = true
+		if wr.Before != nil {
+			if bt, at := templateOf(wr.Before), templateOf(wr.After); bt != nil && at != nil && !reflect.DeepEqual(bt.Spec, at.Spec) {
+				if t.Released {
+					t.LastDisturbance = "template-change"
+				}
+				t.Released = true
+			} else if rb, ra := replicasPtr(wr.Before), replicasPtr(wr.After); rb != nil && ra != nil && *rb != nil && *ra != nil && **rb != **ra {
+				t.LastDisturbance = "scale"
+			}
+		}
 		// template / replicas change by the user: rollback or supersession arms the cancel monitor
 		if wr.Before != nil && s.HasTraffic() {
 			bt, at := templateOf(wr.Before), templateOf(wr.After)
